@@ -184,7 +184,8 @@ def unsplit_netloc(username, password, hostname, port):
         hostname = "[" + hostname + "]"
 
     if auth:
-        hostname = auth + "@" + hostname
+        # NOTE: "http://u@/x" has userinfo but no host
+        hostname = auth + "@" + (hostname or "")
     # NOTE: port 0 is a port too
     if port or port == 0:
         hostname += ":" + str(port)
